@@ -197,3 +197,64 @@ class StubKDTree:
                     members.append(j)
             out[q] = members
         return out
+
+
+# ----------------------------------------------------------------------------
+# verde.coordinates.block_split by the contract that C08 verifies
+# ----------------------------------------------------------------------------
+class BlockSplitContract:
+    """block centres come from the real grid_coordinates(pixel_register=True);
+    the label of a point is the index (row-major from the south-west) of a block
+    whose closed cell (extended outwards for border blocks) contains it. Labels
+    are concretised by forking. Assume-guarantee: C08 checks this contract
+    against the real block_split."""
+
+    def __init__(self):
+        self.calls = []
+
+    def __call__(self, coordinates, spacing=None, adjust="spacing", region=None, shape=None):
+        from verde import coordinates as vc
+        from verde.base.utils import check_coordinates, n_1d_arrays
+
+        coordinates = check_coordinates(coordinates)[:2]
+        if region is None:
+            region = vc.get_region(coordinates)
+        block_coords = vc.grid_coordinates(region, spacing=spacing, shape=shape, adjust=adjust, pixel_register=True)
+        nn, ne = block_coords[0].shape
+        w, s = region[0], region[2]
+        # block widths from the centres (first centre is half a block from the bound)
+        we = (block_coords[0][0, 0] - w) * 2
+        hn = (block_coords[1][0, 0] - s) * 2
+        ev, nv = n_1d_arrays(coordinates, 2)
+        eng = E.ENGINE
+        labels = np.empty(ev.size, dtype=int)
+        for p in range(ev.size):
+            L = eng.new("blk", z3.IntSort())
+            eng.add(L >= 0, L < nn * ne)
+            for i in range(nn):
+                for j in range(ne):
+                    conds = []
+                    if j > 0:
+                        conds.append(T(ev[p]) >= T(w + j * we))
+                    if j < ne - 1:
+                        conds.append(T(ev[p]) <= T(w + (j + 1) * we))
+                    if i > 0:
+                        conds.append(T(nv[p]) >= T(s + i * hn))
+                    if i < nn - 1:
+                        conds.append(T(nv[p]) <= T(s + (i + 1) * hn))
+                    eng.add(z3.Implies(L == i * ne + j, z3.And(*conds) if conds else z3.BoolVal(True)))
+            labels[p] = eng.concretize_int(L)
+        self.calls.append((coordinates, region, (nn, ne), labels.copy()))
+        return n_1d_arrays(block_coords, len(block_coords)), labels
+
+
+def in_block(ctx, e, n, region, shape, k):
+    "assumption helper: point (e, n) lies strictly inside block k of the shape=(nn, ne) layout of region"
+    from .engine import And, gt, lt
+
+    nn, ne = shape
+    i, j = divmod(k, ne)
+    w, ee, s, no = region
+    we = (ee - w) / ne
+    hn = (no - s) / nn
+    return And(gt(e, w + j * we), lt(e, w + (j + 1) * we), gt(n, s + i * hn), lt(n, s + (i + 1) * hn))
